@@ -5,6 +5,7 @@ import Driver.Bridge
 import Driver.Sizing
 import Driver.Descr
 import Driver.TmgrSched
+import Driver.RM
 open Lean
 
 /-- line protocol: one JSON op per input line, one canonical JSON answer per line -/
@@ -25,5 +26,6 @@ def main (args : List String) : IO UInt32 := do
   | ["sizing"] => loop stdin Driver.Sizing.handle; return 0
   | ["descr"] => loop stdin Driver.Descr.handle; return 0
   | ["tmgrsched"] => loop stdin Driver.TmgrSched.handle; return 0
+  | ["rm"] => loop stdin Driver.RM.handle; return 0
   | ["cause"] => loop stdin Driver.AgentCause.handle; return 0
   | _ => IO.eprintln "usage: rpmodel <suite>"; return 2
